@@ -495,6 +495,7 @@ impl DtlsInner {
 
                     self.handle_decrypted_record(
                         record.content_type,
+                        record.epoch,
                         payload,
                         ctx,
                         incoming_data_tx,
@@ -591,6 +592,7 @@ impl DtlsInner {
     async fn handle_decrypted_record(
         &self,
         content_type: ContentType,
+        epoch: u16,
         payload: Bytes,
         ctx: &mut HandshakeContext,
         incoming_data_tx: &mpsc::UnboundedSender<Bytes>,
@@ -607,7 +609,13 @@ impl DtlsInner {
                 ctx.read_epoch = ctx.read_epoch.saturating_add(1);
             }
             ContentType::ApplicationData => {
-                let _ = incoming_data_tx.send(payload);
+                // Epoch 0 records are not authenticated: application data is only
+                // ever valid under the negotiated keys.
+                if epoch != 0 {
+                    let _ = incoming_data_tx.send(payload);
+                } else {
+                    warn!("Dropping unauthenticated (epoch 0) ApplicationData record");
+                }
             }
             ContentType::Handshake => {
                 self.process_handshake_payload(payload, ctx, certificate, is_client)
@@ -615,7 +623,11 @@ impl DtlsInner {
             }
             ContentType::Alert => {
                 trace!("Received Alert: {:?}", payload);
-                if payload.len() >= 2 {
+                if epoch == 0 && ctx.session_keys.is_some() {
+                    // Once keys are negotiated only authenticated alerts may
+                    // change the connection state.
+                    warn!("Ignoring unauthenticated (epoch 0) Alert record");
+                } else if payload.len() >= 2 {
                     let description = payload[1];
                     if description == 0 {
                         // CloseNotify
